@@ -123,6 +123,139 @@ def prove_lemmas(run, tier):
 
 
 # ------------------------------------------------------------------------------------------------
+# float islands on demand: chains the exploration met for which no lemma was known
+# ------------------------------------------------------------------------------------------------
+
+def _island_chunk(args):
+    """decide  forall lo <= x <= hi: island(x) == mode(x * num / den)  bit-precisely (QF_BVFP).
+    Python's int/int division is the correctly rounded exact quotient: modelled by a binary128 division rounded to
+    binary64 (no double rounding: a quotient x/c that is not a binary64 midpoint stays further than 2^-113 relative
+    away from every midpoint as long as c < 2^50), or by a plain binary64 division when both operands are exact."""
+    ops, mode, lo, hi, timeout_ms = args
+    ops = tuple((o, k) for o, k in ops)
+    RNE = z3.RNE()
+    F64, F128 = z3.Float64(), z3.FPSort(15, 113)
+    x = z3.BitVec("x", 64)
+    wide = max(abs(lo), abs(hi)) >= 2**53
+    f = None
+    num, den = 1, 1
+    for op, k in ops:
+        ki = int(k)
+        if op == "idiv":
+            if wide or abs(ki) >= 2**53:
+                f = z3.fpFPToFP(RNE, z3.fpDiv(RNE, z3.fpSignedToFP(RNE, x, F128), z3.FPVal(ki, F128)), F64)
+            else:
+                f = z3.fpDiv(RNE, z3.fpSignedToFP(RNE, x, F64), z3.FPVal(float(ki), F64))
+            den *= ki
+        elif op == "mul":
+            f = z3.fpMul(RNE, f, z3.FPVal(float(k), F64))
+            num *= ki
+        else:
+            f = z3.fpDiv(RNE, f, z3.FPVal(float(k), F64))
+            den *= ki
+    if den < 0:
+        num, den = -num, -den
+    W = 128
+    rm = {"trunc": z3.RTZ(), "round": RNE, "floor": z3.RTN()}[mode]
+    got = z3.fpToSBV(rm, f, z3.BitVecSort(W))
+    t = z3.SignExt(W - 64, x) * z3.BitVecVal(num, W)
+    d = z3.BitVecVal(den, W)
+    qt, rt = z3.SDiv(t, d) if hasattr(z3, "SDiv") else t / d, z3.SRem(t, d)
+    qf = z3.If(rt < 0, qt - 1, qt)
+    rf = z3.If(rt < 0, rt + d, rt)
+    if mode == "trunc":
+        want = qt
+    elif mode == "floor":
+        want = qf
+    else:
+        up = z3.Or(2 * rf > d, z3.And(2 * rf == d, z3.Extract(0, 0, qf) == 1))
+        want = z3.If(up, qf + 1, qf)
+    s = z3.Solver()
+    s.set("timeout", timeout_ms)
+    s.add(x >= lo, x <= hi, got != want)
+    t0 = time.time()
+    res = s.check()
+    x0 = s.model()[x].as_signed_long() if res == z3.sat else None
+    return str(res), time.time() - t0, x0
+
+
+def _exact_py(ops, mode, x0):
+    from fractions import Fraction
+    import math
+    v = Fraction(x0)
+    for op, k in ops:
+        v = v * int(k) if op == "mul" else v / int(k)
+    return {"trunc": math.trunc, "round": round, "floor": math.floor}[mode](v)
+
+
+def prove_demands(run, tier, demands):
+    """demands: [(ops, mode, lo, hi)] merged per (ops, mode)"""
+    merged = {}
+    for ops, mode, lo, hi in demands:
+        k = (ops, mode)
+        a, b = merged.get(k, (lo, hi))
+        merged[k] = (min(a, lo), max(b, hi))
+    tmo = 100000 if tier == "quick" else 900000
+    with cf.ProcessPoolExecutor(max_workers=16) as pool:
+        for (ops, mode), (lo, hi) in merged.items():
+            chunks = 8 if hi - lo > 10**6 else 1
+            step = (hi - lo + chunks) // chunks
+            jobs = [(ops, mode, a, min(hi, a + step - 1), tmo) for a in range(lo, hi + 1, step)]
+            res = list(pool.map(_island_chunk, jobs))
+            name = "lemma.island." + "_".join(f"{o}{k}" for o, k in ops) + f".{mode}"
+            st = sum(r[1] for r in res)
+            cex = [r[2] for r in res if r[0] == "sat"]
+            # a counterexample counts only if CPython's own floats agree that the island differs from exact arithmetic
+            cex = [x0 for x0 in cex if tm.Ratio(None, None, ops).concrete(x0, mode) != _exact_py(ops, mode, x0)]
+            if cex:
+                tm.Ratio.REFUTED.setdefault((ops, mode), []).extend(cex[:2])
+                run.obligation(name, "inconclusive", f"float chain {ops}->{mode} is NOT exact arithmetic on [{lo}, {hi}] (e.g. x={cex[0]}: "
+                               f"{tm.Ratio(None, None, ops).concrete(cex[0], mode)} instead of {_exact_py(ops, mode, cex[0])}); the counterexample "
+                               "instance is explored, other values are not covered", paths=1, queries=len(jobs), solver_s=st)
+            elif all(r[0] == "unsat" for r in res):
+                tm.Ratio.PROVEN.setdefault((ops, mode), []).append((lo, hi))
+                run.obligation(name, "discharged", f"bit-precise QF_BVFP unsat on [{lo}, {hi}] in {len(jobs)} chunks, {st:.1f}s", paths=1,
+                               queries=len(jobs), solver_s=st)
+            else:
+                tm.Ratio.REFUTED.setdefault((ops, mode), [])
+                run.obligation(name, "inconclusive", f"float chain {ops}->{mode} on [{lo}, {hi}]: solver gave no answer within the budget",
+                               paths=1, queries=len(jobs), solver_s=st)
+
+
+def check_with_demands(r, run, tier, specs):
+    import json
+    from vf.report import ROOT
+    from vf.ch import WORK
+    d = os.path.join(WORK, "C16")
+    os.makedirs(d, exist_ok=True)
+    path = os.path.join(d, f"demands_{os.getpid()}.jsonl")
+    os.environ["VF_DEMANDS"] = path
+    todo = specs
+    try:
+        for it in range(3):
+            open(path, "w").close()
+            r.check_many(todo)
+            dem = set()
+            for line in open(path):
+                j = json.loads(line)
+                ops = tuple((o, k) for o, k in j["ops"])
+                if (ops, j["mode"]) not in tm.Ratio.PROVEN and (ops, j["mode"]) not in tm.Ratio.REFUTED:
+                    dem.add((ops, j["mode"], j["lo"], j["hi"]))
+            if not dem or it == 2:
+                break
+            prove_demands(run, tier, sorted(dem))
+            todo = [sp for sp in specs if any(run.obl.get(f"{sp['prefix']}.{e}", {}).get("status") == "inconclusive" for e in sp["expect"])]
+            if not todo:
+                break
+    finally:
+        os.environ.pop("VF_DEMANDS", None)
+        try:
+            os.remove(path)
+        except OSError:
+            pass
+
+
+# ------------------------------------------------------------------------------------------------
 # harnesses
 # ------------------------------------------------------------------------------------------------
 
@@ -472,7 +605,7 @@ def run(run, tier):
     r = E1Runner(run)
     exp2 = lambda p: [p + ".stored", p + ".roundtrip"]
     S = lambda h, expect, **kw: dict(harness=h, prefix="e1", expect=expect, **kw)
-    r.check_many([
+    check_with_demands(r, run, tier, [
         S(h_date, exp2("date")), S(h_time_millis, exp2("time_millis")), S(h_time_micros, exp2("time_micros")),
         S(h_ts_millis_aware, exp2("timestamp_millis.aware")), S(h_ts_micros_aware, exp2("timestamp_micros.aware")),
         S(h_ts_millis_naive, exp2("timestamp_millis.naive")), S(h_ts_micros_naive, exp2("timestamp_micros.naive")),
